@@ -288,6 +288,10 @@ def check_sphinx(qual, obj, stats, case):
         stats.fail('C07/sphinx-hook-result', case, 'sphinxext.process_signature(..., %r, ...) returned %r, expected its inputs or two strings' % (qual, out))
         return
     stats.cls('sphinx/strings')
+    short = qual.split('.', 1)[1] if '.' in qual else qual
+    if qual.startswith('verif_sphinx_case.') and short in SPHINX_EXPECT and out[0] != SPHINX_EXPECT[short]:
+        stats.fail('C07/sphinx-hook-string/member', case, 'sphinxext.process_signature(..., %r, ...)[0] = %r, the member is written %s' % (
+            qual, out[0], SPHINX_EXPECT[short]))
     if isinstance(obj, types.FunctionType) and isinstance(sys.modules.get(qual.rsplit('.', 1)[0]), types.ModuleType):
         try:
             if ext.fetch_dotted_name(qual)[1] is not obj:
@@ -424,6 +428,8 @@ HEADS = [
     ('class K:\n    def w(*args, **kwargs):', 'K().w'),
     ('def w0(*args, **kwargs):\n    return w(*args, **kwargs)\ndef w(*args, **kwargs):', 'functools.partial(w0, 1, 2, 3)'),
     ('def w0(*args, **kwargs):\n    return w(*args, **kwargs)\ndef w(*args, **kwargs):', 'functools.partial(w0, zz9=3)'),
+    # a partial object inspect rejects (too many positionals for the forwarding function itself): same exception type
+    ('def w0(c, **kwargs):\n    return c(**kwargs)\ndef w(*args, **kwargs):', 'functools.partial(w0, w, 1)'),
 ]
 PRELUDE = ('import functools\n'
            'def F(x, y=2, *, z=3):\n    return 0\n'
@@ -610,7 +616,25 @@ instance = K()
 Alias = int
 def rebound(a: Alias, b: Alias = None) -> Alias:
     return 0
+from sigtools import specifiers as _sp
+class Members:
+    def me(self, p, q=1):
+        return 0
+    @staticmethod
+    def st(p, q=1):
+        return 0
+    @classmethod
+    def cl(cls, p, q=1):
+        return 0
+    @_sp.forwards_to_method('me')
+    def fw(self, a, *args, **kwargs):
+        return self.me(*args, **kwargs)
+    @_sp.forwards_to_method('me', emulate=True)
+    def fwe(self, a, *args, **kwargs):
+        return self.me(*args, **kwargs)
 """
+# what the hook must print for members whose signature involves nothing that could fail
+SPHINX_EXPECT = {'Members.me': '(p, q=1)', 'Members.st': '(p, q=1)', 'Members.cl': '(p, q=1)'}
 
 
 def shard_sphinx_module(arg):
@@ -625,8 +649,13 @@ def shard_sphinx_module(arg):
     exec(compile(SPHINX_SRC, '<verif-sphinx>', 'exec'), mod.__dict__)
     sys.modules[name] = mod
     try:
+        # a module is documented under its bare name (no dot)
+        st.cls('sphinx-synthetic')
+        check_sphinx(name, mod, st, {'kind': 'sphinx', 'object': '<module>'})
+        check_sphinx('os', os, st, {'kind': 'sphinx', 'object': 'os'})
         for qual in ('undefined_name', 'type_error', 'zero_division', 'attribute_error', 'fine', 'forwards', 'K', 'K.method', 'K.cm',
-                     'K.sm', 'K.__call__', 'instance', 'instance.method', 'no_such_attribute'):
+                     'K.sm', 'K.__call__', 'instance', 'instance.method', 'no_such_attribute', 'Members', 'Members.me', 'Members.st',
+                     'Members.cl', 'Members.fw', 'Members.fwe'):
             obj = mod
             try:
                 for a in qual.split('.'):
